@@ -786,6 +786,36 @@ func famAttest(r *Rng, o *Out, tier string) {
 			cases = append(cases, cas{"ownkey.proof", mustEnc(p), nil, true, always})
 			_ = rn
 		}
+		// 7. two third parties: the trusted one attests honestly (uid), the bearer appends an own third-party
+		// caveat under an own key (own location, or naming the trusted location is impossible twice) and
+		// discharges it with a proof carrying a forged identity (uid+500000): trust must not carry over
+		for _, attackerFirst := range []bool{false, true} {
+			t2, _ := macaroon.New(r.Bytes(8), loc, key)
+			var itT, itX addItem
+			if attackerFirst {
+				itX, _ = newTP(kaAttacker, "https://attacker.example")
+				t2.Add(itX.cav)
+				itT, _ = newTP(kaTrusted, tpLoc)
+				t2.Add(itT.cav)
+			} else {
+				itT, _ = newTP(kaTrusted, tpLoc)
+				t2.Add(itT.cav)
+				itX, _ = newTP(kaAttacker, "https://attacker.example")
+				t2.Add(itX.cav)
+			}
+			_, dT, _ := macaroon.DischargeTicket(kaTrusted, tpLoc, itT.tp.ticket)
+			dT.Add(att())
+			_, dX, _ := macaroon.DischargeTicket(kaAttacker, "https://attacker.example", itX.tp.ticket)
+			forged := auth.FlyioUserID(uint64(uid) + 500000)
+			dX.Add(&forged)
+			gh := auth.GitHubUserID(uint64(uid) + 500000)
+			dX.Add(&gh)
+			ds := [][]byte{mustEnc(dT), mustEnc(dX)}
+			if r.Bool() {
+				ds[0], ds[1] = ds[1], ds[0]
+			}
+			cases = append(cases, cas{fmt.Sprintf("two3p.attackerFirst=%v", attackerFirst), mustEnc(t2), ds, true, trusting})
+		}
 		for _, c := range cases {
 			tms := []string{"nil", "empty", "wrongloc", "wrongkey", "several", "right", "shortkey"}
 			for _, tm := range tms {
@@ -807,6 +837,8 @@ func famAttest(r *Rng, o *Out, tier string) {
 					o.count("obtained")
 				}
 				switch {
+				case strings.Contains(obs, fmt.Sprintf("%d", uint64(uid)+500000)):
+					o.emit("(const sound)", "forged-attestation-obtained:"+c.name+":trust="+tm)
 				case got && !c.trustOK(tm):
 					o.emit("(const sound)", "attestation-obtained:"+c.name+":trust="+tm)
 				case !got && c.honest && c.trustOK(tm):
